@@ -36,8 +36,7 @@ PROP = dict(
     level='proof',
     regen=['consts', 'profilearith'],
     extra=_extra,
-    theorems=['Fit.C12.C12_helpers_full_fails', 'Fit.C12.C12_typed_full_fails', 'Fit.C12.C12_unit_identity',
-              'Fit.C12.C12_pow2_uint8_partial'],
+    theorems=['Fit.C12.C12_F07_witness_fixed', 'Fit.C12.C12_typed_full_fails', 'Fit.C12.C12_unit_identity'],
     families=[dict(name='f64'), dict(name='scaleoffset', spec=True, shrink=False), dict(name='timeangle', spec=True, shrink=False)],
     trusted_base=STD_TRUST + [
         "binary64: FitModel/F64.lean (exact rational operation + one round-to-nearest-even, gradual underflow, overflow, signed zeros; NaN canonical) is tied to Go's float64 on this machine by the family f64 (add/sub/mul/div/compare/math.Round/int<->float conversions on bit patterns: structured + random operands); amd64 does not fuse multiply-add",
